@@ -53,7 +53,9 @@ def translators(repo):
 # --------------------------------------------------------------------------
 # tokens
 # --------------------------------------------------------------------------
-OBJ = ['a', 1, (1, 2), None, 'b', 2.5, frozenset([7]), 'k7', -3, 'c', (), b'y', 'd', 99, ('t', None), 'e']
+OBJ = ['a', 1, (1, 2), None, 'b', 2.5, frozenset([7]), 'k7', -3, 'c', (), b'y', 'd', 99, ('t', None), 'e', Ellipsis]
+FD_TOK = 16      # rendered as a FrozenDict (built lazily, in two insertion orders): its order-free __hash__ / == are
+                 # then exercised as a KEY of the other structures and as a nested value
 IDENT = [i for i, o in enumerate(OBJ) if isinstance(o, str)]     # usable as **kwargs names
 NONE_TOK = 3
 JUNK = 50
@@ -72,6 +74,10 @@ def obj(t):
     if t >= JUNK:
         return "junk%d" % t
     _variant[0] += 1
+    if t == FD_TOK:
+        from boltons.dictutils import FrozenDict
+        pairs = [('n', 1), (2, None), ((), 'z')]
+        return FrozenDict(pairs if _variant[0] % 2 else pairs[::-1])
     if t in ALT:
         alts = ALT[t]
         return alts[_variant[0] % len(alts)]
@@ -90,6 +96,9 @@ def tok(o):
         _INV = {}
         for i, x in enumerate(OBJ):
             _INV[x] = i
+        saved = _variant[0]
+        _INV[obj(FD_TOK)] = FD_TOK
+        _variant[0] = saved
         for i in range(JUNK, JUNK + 20):
             _INV["junk%d" % i] = i
     if isinstance(o, list):
